@@ -40,7 +40,7 @@ func c01History(c *core.Ctx, idx int) (*hist.History, []*hist.Table, combo) {
 }
 
 func checkC01(c *core.Ctx) {
-	c.SetRule("histories from the seeded RBR generator (T<=8 tx x S<=3 stmts x K<=3 tables x R<=4 rows/event, 1..40 (some 300) columns over every supported column type with metadata from the type's domain, NULL/absent pattern classes, ignorable events sprinkled in, 0..1 rotations) x 24 configuration combos {crc}x{v1/6,v1/4,v2/6}x{gtid}x{full,partial}, each streamed through the real Streamer from offset 4 and from transaction boundaries; distinct by hash of (event bytes,start); non-trivial iff the history has >=2 transactions, a NULL, an absent column or >=2 tables")
+	c.SetRule("histories from the seeded RBR generator (T<=8 tx x S<=3 stmts x K<=3 tables x R<=4 rows/event, 1..40 (some 300) columns over every supported column type with metadata from the type's domain, NULL/absent pattern classes, ignorable events sprinkled in, 0..1 rotations; one stream with 540 (thorough 2600) table ids) x 24 configuration combos {crc}x{v1/6,v1/4,v2/6}x{gtid}x{full,partial}, each streamed through the real Streamer from offset 4 and from transaction boundaries; distinct by hash of (event bytes,start); non-trivial iff the history has >=2 transactions, a NULL, an absent column or >=2 tables")
 	c.Assume("simulated master follows mysql_binlog_send (fake rotate, format description, events from the requested boundary, EOF at the end)")
 	c.Assume("expected values come from enc/val, enc/bjson and strconv, not from the repository")
 	nh := c.N(400, 12000)
@@ -56,6 +56,10 @@ func checkC01(c *core.Ctx) {
 		l := h.Build()
 		c01Run(c, -1, h, l, tables, cb, hist.Pos{File: h.FirstFile, Off: 4})
 		c.Cell("event-larger-than-16MB(split over protocol packets)")
+	}
+	if !c.Race && c.Pass == "plain" {
+		// K large: hundreds of table ids in one stream, one table used throughout
+		manyIDs(c, "c01", []int{c.N(540, 2600)})
 	}
 	for idx := 0; idx < nh; idx++ {
 		if !c.Mine(idx) {
